@@ -134,6 +134,17 @@ void AsyncLogging::threadFunc()
     output.flush();
     MUDUO_VERIF_POINT("AsyncLogging::threadFunc:beforeRetest", this);
   }
+  {
+    // stop(): write what was appended since the last swap
+    muduo::MutexLockGuard lock(mutex_);
+    buffers_.push_back(std::move(currentBuffer_));
+    currentBuffer_ = std::move(newBuffer1);  // keeps append() usable after stop()
+    buffersToWrite.swap(buffers_);
+  }
+  for (const auto& buffer : buffersToWrite)
+  {
+    output.append(buffer->data(), buffer->length());
+  }
   output.flush();
 }
 
